@@ -3,7 +3,7 @@
 P=$1; shift; [ -f "$P" ] || P=/verif/seeded/$P/patch.diff
 R=${VERIF_REPO:-/tmp/repo_mut2}; export VERIF_REPO=$R VERIF_WORK=$R.work VERIF_EVIDENCE_DIR=$R.evidence; mkdir -p $VERIF_EVIDENCE_DIR
 [ -d $R ] || git -C /repo worktree add --detach -f $R HEAD >/dev/null 2>&1
-git -C $R checkout -q -- . ; git -C $R apply "$P" || { echo "patch does not apply"; exit 9; }
+git -C $R checkout -q -- . ; git -C $R checkout -q --detach $(git -C /repo rev-parse HEAD); git -C $R apply "$P" || { echo "patch does not apply"; exit 9; }
 ids=""; while [ $# -gt 0 ] && [ "$1" != "--" ]; do ids="$ids $1"; shift; done; [ "$1" = "--" ] && shift
 for id in $ids; do (cd /verif && ./check $id --tier ${TIER:-quick} "$@" 2>/dev/null | grep -E "^(VIOLATION|KNOWN|BROKEN|INCONCLUSIVE|C[0-9]+ |  harness=)" | cut -c1-400); done
 git -C $R checkout -q -- .
